@@ -59,6 +59,8 @@ DT_NAMES = {'int': 'int', 'np.int8': 'int', 'np.int16': 'int',
             'np.longdouble': 'float',
             'np.float32': 'narrow', 'np.float16': 'narrow',
             'np.half': 'narrow', 'np.single': 'narrow'}
+for _n in ('np.int8', 'np.int16', 'np.uint8', 'np.uint16'):
+    DT_NAMES[_n] = 'tiny'
 
 
 def dtc(v):
@@ -81,6 +83,10 @@ def dtc(v):
 
 def _join_lay(a, b):
     if a == b:
+        return a
+    if a == ('empty',):
+        return b
+    if b == ('empty',):
         return a
     if a is None or b is None:
         return None
@@ -167,6 +173,11 @@ def join(a, b):
         return V(a.k, ax=None, c=('conflict', a.ax, b.ax))
     if dtc(a) and dtc(b):
         return V('dtype', c=dtc(a) if dtc(a) == dtc(b) else 'mixed')
+    if a.k == b.k == 'dict' and (a.ax or b.ax) and not (
+            a.ax and b.ax and a.ax != b.ax):
+        # "may hold keys of this axis" survives a join with "no keys yet"
+        return V('dict', ax=a.ax or b.ax, el=a.el if a.el == b.el else None,
+                 c=a.c if a.c == b.c else None)
     if a.k == b.k and a.k in ('table', 'matrix') and (
             isinstance(a.lay, tuple) and len(a.lay) == 2 or
             isinstance(b.lay, tuple) and len(b.lay) == 2):
@@ -207,7 +218,10 @@ def join(a, b):
             ax = a.ax
         else:
             ax = a.ax if a.ax == b.ax else None
-        return V('list', el=el, ax=ax)
+        return V('list', el=el, ax=ax,
+                 lay=a.lay if a.lay == b.lay else (
+                     b.lay if a.el is None and a.lay is None else (
+                         a.lay if b.el is None and b.lay is None else None)))
     pair = {a.k, b.k}
     if pair == {'recdict', 'dict'}:
         return a if a.k == 'recdict' else b
@@ -304,6 +318,7 @@ class AxisInterp:
         self.depth = depth
         self.closure = closure or {}
         self.loop_axis = []        # stack of iteration axes
+        self.loop_nodes = []       # stack of loop statements
         self.spec = ','.join('%s=%s' % kv for kv in sorted(
             self.fixed.items()))
         self._defaults_cache = {}
@@ -438,6 +453,14 @@ class AxisInterp:
             self.ev(st.value, env)
             v0 = st.value
             if isinstance(v0, ast.Call) and isinstance(
+                    v0.func, ast.Attribute) and v0.func.attr == 'update' \
+                    and isinstance(v0.func.value, ast.Name) and v0.args and \
+                    isinstance(v0.args[0], ast.Call) and \
+                    call_name(v0.args[0]) == 'zip' and v0.args[0].args:
+                kv = self.ev(v0.args[0].args[0], env)
+                if kv.k == 'ids':
+                    self.dict_key(st, v0.func.value.id, kv, env)
+            if isinstance(v0, ast.Call) and isinstance(
                     v0.func, ast.Attribute) and v0.func.attr == 'append' \
                     and v0.args and isinstance(v0.func.value, ast.Subscript) \
                     and isinstance(v0.func.value.value, ast.Subscript) and \
@@ -488,6 +511,18 @@ class AxisInterp:
                     newv = join(cur, newv)
                     if v.func.attr == 'extend':
                         newv = newv.with_(c='concat')
+                # entries appended by one loop are laid out in that loop's
+                # iteration order
+                if v.func.attr == 'append' and self.loop_nodes and \
+                        newv.k == 'list':
+                    ll = getattr(self.loop_nodes[-1], '_verif_lay', None) \
+                        or ('loop', 'L%d' % self.loop_nodes[-1].lineno)
+                    fresh_list = cur is None or (
+                        cur.k == 'list' and (cur.el is None or
+                                             cur.lay == ll))
+                    newv = newv.with_(lay=ll if fresh_list else None)
+                elif newv.k == 'list' and v.func.attr != 'append':
+                    newv = newv.with_(lay=None)
                 if cur is None or cur.k in ('list', 'top'):
                     env[name] = newv
                 elif cur.k in ('ids', 'md') and v.func.attr == 'extend' \
@@ -613,6 +648,9 @@ class AxisInterp:
         elif isinstance(target, ast.Subscript):
             base = self.ev(target.value, env)
             self.dtype_store(st, target, val, env)
+            if base.k == 'dict' and isinstance(target.value, ast.Name):
+                self.dict_key(st, target.value.id, self.ev(target.slice,
+                                                           env), env)
             if base.k == 'per' and base.c == 'alloc' and base.ax:
                 idx = self.ev(target.slice, env)
                 if idx.k == 'pos1' and idx.ax:
@@ -675,6 +713,21 @@ class AxisInterp:
         e2 = dict(env)
         self.assign(st.target, elem, e2, st)
         self.loop_axis.append(ax)
+        # what is appended while walking a sequence is in that sequence's
+        # order; an unordered / unknown source gets a symbol of its own
+        src_lay = itv.lay if itv.k in ('ids', 'md', 'list', 'order', 'pos',
+                                       'index') and itv.lay and \
+            itv.lay != ('new',) else None
+        if src_lay is None and itv.k == 'enum' and itv.el is not None:
+            src_lay = itv.el.lay
+        st._verif_lay = src_lay or ('loop', 'L%d' % st.lineno)
+        self.loop_nodes.append(st)
+        try:
+            return self._loop_body(st, env, e2, elem)
+        finally:
+            self.loop_nodes.pop()
+
+    def _loop_body(self, st, env, e2, elem):
         out = self.block(st.body, e2)
         if out is not None:
             e3 = self.join_env(env, out)
@@ -894,6 +947,20 @@ class AxisInterp:
             if len(e.generators) == 1 and not e.generators[0].ifs:
                 src = self.ev(e.generators[0].iter, env)
                 lay = src.lay if src.k != 'matrix' else None
+                g0 = e.generators[0]
+                if isinstance(e.elt, ast.Subscript) and isinstance(
+                        g0.target, ast.Name) and isinstance(
+                        e.elt.slice, ast.Name) and \
+                        e.elt.slice.id == g0.target.id:
+                    # a gather L[i] for i in <positions>: the result is in
+                    # the order of the positions, not in L's order
+                    base = self.ev(e.elt.value, env)
+                    if base.k in ('list', 'ids', 'md') and base.lay:
+                        lay = src.lay if src.lay else ('new',)
+                        if base.k in ('ids', 'md'):
+                            return V(base.k, ax=base.ax, own=base.own,
+                                     lay=lay, fresh=True)
+                        return V('list', el=base.el, ax=base.ax, lay=lay)
             if elv.k == 'id':
                 return V('ids', ax=elv.ax, own=elv.own, lay=lay)
             if elv.k == 'md1':
@@ -951,6 +1018,12 @@ class AxisInterp:
                 else:
                     self.sink('OWNER', e, 'combine:per', 'ok',
                               'vectors of one table / one established order')
+            if isinstance(e.op, (ast.Sub, ast.BitOr, ast.BitAnd,
+                                 ast.BitXor)) and a.k in ('ids', 'list') \
+                    and b.k in ('ids', 'list', 'top'):
+                # set algebra over ids of one axis stays on that axis
+                if a.k == 'ids' and (b.k != 'ids' or b.ax in (None, a.ax)):
+                    return V('ids', ax=a.ax, own=None, fresh=True)
             if isinstance(e.op, ast.Mult) and a.k == 'list' and \
                     b.k == 'len' and b.ax:
                 return V('md' if a.el is not None and a.el.k == 'none'
@@ -1446,6 +1519,10 @@ class AxisInterp:
             v = self.ev(e.args[0], env)
             if v.k == 'len':
                 return V('str', el=v)
+        if name in ('np.min_scalar_type', 'min_scalar_type'):
+            for a in e.args:
+                self.ev(a, env)
+            return V('dtype', c='tiny')
         if name == 'len' and e.args:
             v = self.ev(e.args[0], env)
             if v.k in ('ids', 'md', 'per', 'list', 'pos', 'index') and v.ax:
@@ -1616,6 +1693,20 @@ class AxisInterp:
         return TOP
 
     def shape_tuple(self, e, v, maj=None):
+        res = self._shape_tuple(e, v, maj)
+        r, c = v.elts
+        # a dimension of constant length 0 holds no entries: any order
+        z = [x.k == 'const' and x.c == 0 for x in (r, c)]
+        if res.k == 'matrix' and any(z):
+            known = c.ax if z[0] else r.ax
+            if known in (O, S):
+                empty_ax = inv(known)
+                lay = (('empty',), None) if empty_ax == O else (
+                    None, ('empty',))
+                res = res.with_(lay=lay)
+        return res
+
+    def _shape_tuple(self, e, v, maj=None):
         r, c = v.elts
         if r.ax and c.ax:
             if (r.ax, c.ax) == (O, S):
@@ -1675,6 +1766,27 @@ class AxisInterp:
                 return self.shape_tuple(e, sv, maj)
         return V('matrix', maj=maj, fresh=True, c='unoriented')
 
+    def dict_key(self, node, name, key, env):
+        """A dictionary keyed by ids collects ids of one axis only: the same
+        text may be an id on both axes."""
+        cur = env.get(name)
+        if cur is None or cur.k != 'dict':
+            return
+        kax = key.ax if key.k in ('id', 'ids') else None
+        if kax not in (O, S):
+            return
+        if cur.ax in (O, S) and cur.ax != kax:
+            self.sink('IDAPI', node, 'dict-keys:%s' % name, 'bad',
+                      'the dictionary `%s` is keyed by %s ids and receives '
+                      'a key that is a %s id: an id text present on both '
+                      'axes makes the entries overwrite each other'
+                      % (name, NAMEAX[cur.ax], NAMEAX[kax]))
+        else:
+            if cur.ax in (O, S):
+                self.sink('IDAPI', node, 'dict-keys:%s' % name, 'ok',
+                          'keys of one axis')
+            env[name] = cur.with_(ax=kax)
+
     def dtype_store(self, st, target, val, env):
         """A value stored into an array / accumulator allocated with an
         explicit dtype."""
@@ -1699,6 +1811,14 @@ class AxisInterp:
                     val.k == 'const' and isinstance(val.c, int)):
                 self.sink('DTYPE', st, 'store:%s' % name, 'ok',
                           'counts / positions stored into an integer array')
+        elif dt.c == 'tiny':
+            if val.k in ('pos', 'pos1', 'len', 'scalar', 'per', 'index') or \
+                    val.k != 'bool':
+                self.sink('DTYPE', st, 'store:%s' % name, 'bad',
+                          '`%s` is allocated with a one- or two-byte / '
+                          'data-dependent integer type: positions and '
+                          'counts beyond its range wrap around silently'
+                          % name)
         elif dt.c == 'float':
             if val.k in ('scalar', 'per', 'len', 'const'):
                 self.sink('DTYPE', st, 'store:%s' % name, 'ok',
@@ -2075,7 +2195,10 @@ class AxisInterp:
                                   NAMEAX[rows], trv.c,
                                   '' if ok else ': the result has %ss as '
                                   'rows' % NAMEAX[rows]))
-                return V('matrix', fresh=True, flip=flip_after)
+                lay = None
+                if vals.lay and rows in (O, S):
+                    lay = (vals.lay, None) if rows == O else (None, vals.lay)
+                return V('matrix', fresh=True, flip=flip_after, lay=lay)
             self.sink('MATOP', e, 'assemble-vectors', 'unknown',
                       'transpose flag unresolved')
             return V('matrix', fresh=True, c='unoriented')
@@ -2293,6 +2416,26 @@ class AxisInterp:
             if src is not None:
                 yield from self.dict_literal_items(src, env)
 
+    def kernel_owner(self, e, name, arr, parts):
+        """The matrix the kernel rewrites and the ids / metadata it is given
+        (and hands back for installation) belong to one table: the working
+        copy, not partly the receiver."""
+        if arr.k != 'matrix' or not arr.own:
+            return
+        for k, v in parts.items():
+            if v.k == 'none' or not v.own:
+                continue
+            if v.own != arr.own:
+                self.sink('KERNEL', e, '%s:owner:%s' % (name, k), 'bad',
+                          "the kernel works on the matrix of table '%s' but "
+                          "is handed the %s of table '%s': what it returns "
+                          "is installed in the result, which then shares "
+                          "these objects with the other table"
+                          % (arr.own, k, v.own))
+            else:
+                self.sink('KERNEL', e, '%s:owner:%s' % (name, k), 'ok',
+                          'matrix and %s come from one table' % k)
+
     def kernel(self, e, name, env):
         args = [self.ev(a, env) for a in e.args]
         kws = {kw.arg: self.ev(kw.value, env) for kw in e.keywords}
@@ -2320,6 +2463,9 @@ class AxisInterp:
                           if badp else 'ids, metadata, index and axis agree '
                           '(%s)' % NAMEAX[ax])
             arr = b.get('arr', TOP)
+            self.kernel_owner(e, '_filter', arr,
+                              {k: b[k] for k in ('ids', 'metadata')
+                               if k in b})
             return V('tuple', elts=(
                 V('matrix', own=arr.own if arr.k == 'matrix' else None),
                 V('ids', ax=ax), V('md', ax=ax)))
@@ -2347,6 +2493,7 @@ class AxisInterp:
                            % (badp, NAMEAX[ax])) if badp else
                           'matrix view, ids, metadata and axis agree (%s)'
                           % NAMEAX[ax])
+            self.kernel_owner(e, '_transform', arr, parts)
             return NONE
         if name == 'subsample':
             arr = args[0] if args else TOP
